@@ -3,10 +3,12 @@
 package rueidis
 
 import (
+	"context"
 	"fmt"
 	"strconv"
 	"strings"
 	"testing"
+	"time"
 
 	"verifsim/sched"
 )
@@ -72,10 +74,39 @@ func genFraming(seed uint64, tier, variant string) any {
 	p.X = map[string]any{"sendbuf": sendbuf}
 	ntasks := 1 + r.IntN(6)
 	salt := 0
+	// client-side caching traffic: the client builds commands of its own around a cached read (CLIENT CACHING YES,
+	// MULTI, PTTL per key, the rewritten MGET of the keys that missed, EXEC) from the same pool; they too must reach
+	// the wire intact when the caller gives up while they are queued
+	withCache := !p.Opt.RESP2 && r.IntN(2) == 0
+	if withCache {
+		p.Opt.DisableCache = false
+		for i, n := 0, 3+r.IntN(8); i < n; i++ {
+			p.Ghosts = append(p.Ghosts, GhostSpec{Kind: "cmd", Argv: []string{"SET", "fk" + strconv.Itoa(r.IntN(6)), "v" + strconv.Itoa(i)}, MinStep: r.IntN(200)})
+		}
+	} else {
+		p.Opt.DisableCache = true
+	}
 	for ti := 0; ti < ntasks; ti++ {
 		ncalls := 2 + r.IntN(6)
 		var calls []CallSpec
 		for ci := 0; ci < ncalls; ci++ {
+			if withCache && r.IntN(4) == 0 {
+				c := CallSpec{Kind: "mgetc", TTLMs: 60_000, Cmds: []CmdSpec{{Argv: []string{"MGET"}}}}
+				for k, n := 0, 1+r.IntN(4); k < n; k++ {
+					c.Cmds[0].Argv = append(c.Cmds[0].Argv, "fk"+strconv.Itoa(r.IntN(6)))
+				}
+				if withCancel {
+					switch y := r.IntN(100); {
+					case y < 35:
+						c.Cancel = true
+						c.CancelAfter = r.IntN(5)
+					case y < 50:
+						c.TimeoutMs = 1 + r.IntN(200)
+					}
+				}
+				calls = append(calls, c)
+				continue
+			}
 			mk := func(k int) CmdSpec {
 				uid := fmt.Sprintf("t%d.c%d.k%d", ti, ci, k)
 				argv := []string{"VARGS", uid}
@@ -156,6 +187,14 @@ func execFraming(t *testing.T, plan any, out *Outcome) {
 		if sendbuf > 0 {
 			e.sim.OnAccept = func(s *sched.Sim, l *sched.Link) { l.C.SetSendBuffer(sendbuf) }
 		}
+	}, extraCall: func(e *env, cl Client, cs CallSpec, ctx context.Context, rec *sched.CallRec) *CallResult {
+		if cs.Kind != "mgetc" {
+			return nil
+		}
+		r := &CallResult{Kind: cs.Kind}
+		c := cl.B().Mget().Key(cs.Cmds[0].Argv[1:]...).Cache()
+		r.Res = []Res{toRes(cl.DoCache(ctx, c, time.Duration(cs.TTLMs)*time.Millisecond))}
+		return r
 	}})
 	if out.HarnessErr != "" {
 		return
@@ -187,13 +226,47 @@ func checkFraming(e *env) {
 	})
 	seen := map[string]int{}
 	big := false
+	cacheKeys := map[string]bool{}
+	for _, calls := range e.plan.Tasks {
+		for _, c := range calls {
+			if c.Kind == "mgetc" {
+				for _, k := range c.Cmds[0].Argv[1:] {
+					cacheKeys[k] = true
+				}
+			}
+		}
+	}
+	for _, pe := range e.sim.W.ProtoErrors {
+		// (an emptied command is written as "*0": not an array of bulk strings any more)
+		out.violate("C14", "malformed-frame", "%s", pe)
+		out.violate("C33", "malformed-frame", "%s", pe)
+	}
 	for _, ex := range e.sim.W.Log {
+		if ex.Conn >= 0 && len(ex.Argv) == 0 {
+			out.violate("C33", "emptied-frame", "connection %d: the server decoded an empty command (a command that was recycled before it was written)", ex.Conn)
+		}
 		if ex.Conn < 0 || len(ex.Argv) == 0 {
 			continue
 		}
 		switch strings.ToUpper(ex.Argv[0]) {
 		case "HELLO", "CLIENT", "PING", "AUTH", "SELECT", "READONLY":
 			continue
+		case "MULTI", "EXEC":
+			if len(ex.Argv) == 1 {
+				continue // the client's own wrapper of a cached read
+			}
+		case "PTTL", "MGET":
+			// the client's own commands around a cached MGET: one PTTL per key that missed and the MGET of those keys
+			ok := len(ex.Argv) >= 2 && (ex.Argv[0] == "MGET" || len(ex.Argv) == 2)
+			for _, k := range ex.Argv[1:] {
+				if !cacheKeys[k] {
+					ok = false
+				}
+			}
+			if ok {
+				out.judged("cached-read-frame-intact")
+				continue
+			}
 		}
 		if ex.Argv[0] != "VARGS" || len(ex.Argv) < 2 {
 			out.violate("C14", "foreign-frame", "server decoded a frame no task built: %q", truncArgv(ex.Argv))
